@@ -313,7 +313,7 @@ func check(c Case) (o h.Outcome) {
 
 // ---------------------------------------------------------------------------------------
 
-var tplPool = []string{"/a", "/a/{x}", "/a/b", "/{x}", "/{x}/b", "/a/{x}/b", "/a/{x}/{y}", "/{x}/{y}", "/b/{y}", "/b", "/a/b/c", "/a/{x}/c", "/{x}/b/{y}", "/a/b/{y}", "/a/p-{x}", "/a/p-b", "/a/{x}.json", "/a/b.json"}
+var tplPool = []string{"/a", "/a/{x}", "/a/b", "/{x}", "/{x}/b", "/a/{x}/b", "/a/{x}/{y}", "/{x}/{y}", "/b/{y}", "/b", "/a/b/c", "/a/{x}/c", "/{x}/b/{y}", "/a/b/{y}", "/a/p-{x}", "/a/p-b", "/a/{x}.json", "/a/b.json", "/a/{x}.{y}", "/{x}-{y}/b"}
 var methodSets = [][]string{{"GET"}, {"POST"}, {"GET", "POST"}, {"GET", "PUT", "DELETE"}}
 var servers = []string{"none", "/v1", "/api/{ver}", "http://h.example/base", "multi:/v1,/v10", "multi:/v10,/v1"}
 var values = []string{"1", "abc", "a.b", "x-y_z~", "b", "a"}
